@@ -592,6 +592,18 @@ func indexDesignator(idx ssa.Value, loops []*natLoop) string {
 	return "v:" + idx.Name()
 }
 
+// stableDesignator removes SSA register names from a row designator so that obligation keys do
+// not change when unrelated edits renumber the registers.
+func stableDesignator(d string) string {
+	if i := strings.Index(d, "∀loop:"); i >= 0 {
+		return d[:i] + "∀loop"
+	}
+	if strings.HasPrefix(d, "v:") {
+		return "v"
+	}
+	return d
+}
+
 // baseVar strips `+ const` / `- const` from an index expression.
 func baseVar(v ssa.Value) ssa.Value {
 	for {
@@ -711,7 +723,7 @@ func ruleIndexAdeq(r *Run) {
 					}
 				}
 				sort.Strings(others)
-				key := fmt.Sprintf("%s:row[%s]", shortName(fn), du)
+				key := fmt.Sprintf("%s:row[%s]", shortName(fn), stableDesignator(du))
 				if seen[key] && same {
 					continue
 				}
@@ -731,11 +743,13 @@ func ruleIndexAdeq(r *Run) {
 func ruleNilGuardGrid(r *Run) {
 	p := r.P
 	n := 0
+	ms := newMutSummary(p, false)
+	ms.computeAll()
 	for _, fn := range p.ModFuncs() {
 		if fn.Pkg == nil || fn.Pkg.Pkg.Path() != pkgDoc || fn.Parent() != nil {
 			continue
 		}
-		tests := fieldNilTestsAny(fn)
+		flows := map[*types.Var]map[ssa.Value]*nonNilFlow{}
 		checked := map[string]bool{}
 		allInstrs(fn, func(in ssa.Instruction) {
 			fa, ok := in.(*ssa.FieldAddr)
@@ -756,28 +770,19 @@ func ruleNilGuardGrid(r *Run) {
 				return
 			}
 			n++
-			// guarded: block lies in the non-nil region of a test of the same path, or a store of a
-			// non-nil value to the same path dominates it
-			guarded := false
-			for _, t := range tests {
-				if t.Field == gfv && sameBase(t.Base, gbase) && t.NonNil[fa.Block()] {
-					guarded = true
-				}
+			// guarded: forward must-analysis "t.Grid is non-nil here" (gen: true edge of a nil test of
+			// the same path, store of a non-nil value; kill: other stores to the path, calls that may
+			// write Table.Grid; meet: intersection over predecessors)
+			if flows[gfv] == nil {
+				flows[gfv] = map[ssa.Value]*nonNilFlow{}
 			}
-			if !guarded {
-				allInstrs(fn, func(in2 ssa.Instruction) {
-					st, ok := in2.(*ssa.Store)
-					if !ok {
-						return
-					}
-					sfv, sbase := fieldOfAddr(st.Addr)
-					if sfv == gfv && sameBase(sbase, gbase) && !isNilConst(st.Val) {
-						if st.Block().Dominates(fa.Block()) && (st.Block() != fa.Block() || instrIndex(st) < instrIndex(fa)) {
-							guarded = true
-						}
-					}
-				})
+			key0 := stripLoads(gbase)
+			nf := flows[gfv][key0]
+			if nf == nil {
+				nf = newNonNilFlow(fn, gfv, gbase, func(c ssa.CallInstruction) bool { return callMayWriteField(ms, c, gfv) })
+				flows[gfv][key0] = nf
 			}
+			guarded := nf.nonNilAt(fa)
 			key := shortName(fn)
 			if checked[key] && guarded {
 				return
@@ -835,4 +840,168 @@ func fieldNilTestsAny(fn *ssa.Function) []anyNilTest {
 		out = append(out, anyNilTest{Base: base, Field: fv, NonNil: region})
 	}
 	return out
+}
+
+// ---------------------------------------------------------------------------
+// nonNilFlow: forward must-analysis over one function's CFG deciding whether the pointer stored
+// in field fv of the object `base` is known to be non-nil at an instruction.
+// ---------------------------------------------------------------------------
+
+type nonNilFlow struct {
+	fn    *ssa.Function
+	fv    *types.Var
+	base  ssa.Value
+	kills func(ssa.CallInstruction) bool
+	in    map[*ssa.BasicBlock]bool
+}
+
+func newNonNilFlow(fn *ssa.Function, fv *types.Var, base ssa.Value, kills func(ssa.CallInstruction) bool) *nonNilFlow {
+	nf := &nonNilFlow{fn: fn, fv: fv, base: base, kills: kills, in: map[*ssa.BasicBlock]bool{}}
+	// optimistic initialisation (true everywhere but the entry), iterate down to the greatest fixpoint
+	for _, b := range fn.Blocks {
+		nf.in[b] = b.Index != 0
+	}
+	for changed := true; changed; {
+		changed = false
+		for _, b := range fn.Blocks {
+			if b.Index == 0 {
+				continue
+			}
+			v := len(b.Preds) > 0
+			for _, pr := range b.Preds {
+				if !nf.edgeFact(pr, b) {
+					v = false
+				}
+			}
+			if v != nf.in[b] {
+				nf.in[b] = v
+				changed = true
+			}
+		}
+	}
+	return nf
+}
+
+// samePath: addr is the address of field fv of the same base object.
+func (nf *nonNilFlow) samePath(addr ssa.Value) bool {
+	fv, base := fieldOfAddr(addr)
+	return fv == nf.fv && sameBase(base, nf.base)
+}
+
+func definitelyNonNil(v ssa.Value) bool {
+	switch x := v.(type) {
+	case *ssa.Alloc, *ssa.MakeMap, *ssa.MakeSlice, *ssa.MakeChan, *ssa.MakeClosure, *ssa.MakeInterface, *ssa.FieldAddr, *ssa.IndexAddr, *ssa.Function, *ssa.Global:
+		return true
+	case *ssa.ChangeType:
+		return definitelyNonNil(x.X)
+	}
+	return false
+}
+
+// transfer applies one instruction to the fact.
+func (nf *nonNilFlow) transfer(in ssa.Instruction, s bool) bool {
+	switch x := in.(type) {
+	case *ssa.Store:
+		if nf.samePath(x.Addr) {
+			return definitelyNonNil(x.Val)
+		}
+		// a store of a whole struct value over the base object
+		if fv, _ := fieldOfAddr(x.Addr); fv == nil && sameBase(x.Addr, nf.base) {
+			return false
+		}
+	case ssa.CallInstruction:
+		if nf.kills != nil && nf.kills(x) {
+			return false
+		}
+	}
+	return s
+}
+
+func (nf *nonNilFlow) out(b *ssa.BasicBlock) bool {
+	s := nf.in[b]
+	for _, in := range b.Instrs {
+		s = nf.transfer(in, s)
+	}
+	return s
+}
+
+// edgeFact: the fact on the CFG edge from→to, including what the branch condition teaches.
+func (nf *nonNilFlow) edgeFact(from, to *ssa.BasicBlock) bool {
+	s := nf.out(from)
+	if len(from.Instrs) == 0 {
+		return s
+	}
+	iff, ok := from.Instrs[len(from.Instrs)-1].(*ssa.If)
+	if !ok || from.Succs[0] == from.Succs[1] {
+		return s
+	}
+	bin, ok := iff.Cond.(*ssa.BinOp)
+	if !ok || (bin.Op != token.NEQ && bin.Op != token.EQL) {
+		return s
+	}
+	var v ssa.Value
+	if isNilConst(bin.Y) {
+		v = bin.X
+	} else if isNilConst(bin.X) {
+		v = bin.Y
+	} else {
+		return s
+	}
+	ld, ok := v.(*ssa.UnOp)
+	if !ok || ld.Op != token.MUL || !nf.samePath(ld.X) {
+		return s
+	}
+	// the load must not be followed, inside the block, by something that changes the path
+	for i := instrIndex(ld) + 1; i < len(from.Instrs); i++ {
+		if ld.Block() == from && !nf.transfer(from.Instrs[i], true) {
+			return s
+		}
+	}
+	if ld.Block() != from {
+		return s
+	}
+	nonNilSucc := from.Succs[0]
+	if bin.Op == token.EQL {
+		nonNilSucc = from.Succs[1]
+	}
+	if to == nonNilSucc {
+		return true
+	}
+	return s
+}
+
+func (nf *nonNilFlow) nonNilAt(at ssa.Instruction) bool {
+	b := at.Block()
+	s := nf.in[b]
+	for _, in := range b.Instrs {
+		if in == at {
+			return s
+		}
+		s = nf.transfer(in, s)
+	}
+	return s
+}
+
+// callMayWriteField: the call's static callee (or, transitively, its callees by summary) stores
+// into field fv of some object reachable from its parameters.
+func callMayWriteField(ms *mutSummary, c ssa.CallInstruction, fv *types.Var) bool {
+	cal := staticCallee(c)
+	if cal == nil {
+		// dynamic call: module closures / interface methods could write anything; the module has no
+		// interface method or function value that takes a *Table, so only closures matter
+		if mc, ok := c.Common().Value.(*ssa.MakeClosure); ok {
+			cal, _ = mc.Fn.(*ssa.Function)
+		}
+		if cal == nil {
+			return false
+		}
+	}
+	for _, sites := range ms.Params(cal) {
+		for _, w := range sites {
+			if w.Field == fv {
+				return true
+			}
+		}
+	}
+	return false
 }
